@@ -23,7 +23,7 @@ pub fn corner_projects() -> Vec<(String, Project, Vec<&'static str>)> {
         let mut s = Vec::new();
         s.extend(std::iter::repeat(b'a').take(9000));
         s.extend_from_slice(le.as_bytes());
-        s.extend_from_slice(format!("second{le}-TXTPP#temp long_t.tmp{le}-b1{le}-b2{le}~{le}TXTPP#write w1{le}last{le}").as_bytes());
+        s.extend_from_slice(format!("second{le}-TXTPP#temp long_t.tmp{le}-b1{le}-b2{le}~{le}# TXTPP#write w1{le}last{le}").as_bytes());
         v.push((format!("long-first-line-{tag}"), proj(vec![("long.txt.txtpp", s)], vec!["long.txt.txtpp"], vec![], "long-first-line"), vec!["build", "needed"]));
     }
     // 2. an included file larger than the buffer with a two-byte character across byte 8192, and across 16384
@@ -61,7 +61,7 @@ pub fn corner_projects() -> Vec<(String, Project, Vec<&'static str>)> {
         v.push((format!("stray-cr-{k}"), proj(vec![("cr.txt.txtpp", bytes)], vec!["cr.txt.txtpp"], vec![], "stray-cr"), vec!["build", "needed"]));
     }
     // 6. the fresh output is empty: over a stale output (must be emptied), over no output (must be created, also only-if-needed)
-    for (k, src) in [b"".to_vec(), b"TXTPP#\n".to_vec(), b"-TXTPP#temp e.tmp\n-x\n".to_vec()].into_iter().enumerate() {
+    for (k, src) in [b"".to_vec(), b"# TXTPP#\n".to_vec(), b"-TXTPP#temp e.tmp\n-x\n".to_vec()].into_iter().enumerate() {
         v.push((format!("empty-output-over-stale-{k}"), proj(vec![("em.txt.txtpp", src.clone()), ("em.txt", b"stale content\n".to_vec())], vec!["em.txt.txtpp"], vec![], "empty-over-stale"), vec!["build", "needed", "verify"]));
         v.push((format!("empty-output-over-nothing-{k}"), proj(vec![("em.txt.txtpp", src)], vec!["em.txt.txtpp"], vec![], "empty-over-nothing"), vec!["build", "needed", "verify"]));
     }
@@ -74,7 +74,7 @@ pub fn corner_projects() -> Vec<(String, Project, Vec<&'static str>)> {
     // 8. a directive whose first argument is longer than 72 bytes with multi-byte characters around byte 72
     {
         let long = format!("{}é→é→é→ tail of a long argument", "a".repeat(69));
-        let src = format!("TXTPP#write {long}\nTXTPP#tag {}【名前】\n-TXTPP#write stored\nuse {}【名前】 here\n", "T".repeat(70), "T".repeat(70)).into_bytes();
+        let src = format!("# TXTPP#write {long}\nTXTPP#tag {}【名前】\n-TXTPP#write stored\nuse {}【名前】 here\n", "T".repeat(70), "T".repeat(70)).into_bytes();
         v.push(("long-first-argument-multibyte".to_string(), proj(vec![("lg.txt.txtpp", src)], vec!["lg.txt.txtpp"], vec![], "long-argument"), vec!["build"]));
     }
     // 9. a stored tag with a multi-byte name used on a line with fewer characters than the tag has bytes
@@ -90,7 +90,7 @@ pub fn corner_projects() -> Vec<(String, Project, Vec<&'static str>)> {
     // 11. tags created after a dependency directive: in the first pass (collect mode) nothing after the dependency is
     //     executed - no tag is created, stored or missed there
     {
-        let page = b"TXTPP#tag TITLE\n-TXTPP#write the title\nTXTPP#include hdr.txt\nTXTPP#tag AUTHOR\n-TXTPP#write somebody\nTXTPP#tag TITLE2\n-TXTPP#write again\nTITLE by AUTHOR (TITLE2)\nTXTPP#\nend\n".to_vec();
+        let page = b"TXTPP#tag TITLE\n-TXTPP#write the title\nTXTPP#include hdr.txt\nTXTPP#tag AUTHOR\n-TXTPP#write somebody\nTXTPP#tag SECOND\n-TXTPP#write again\nTITLE by AUTHOR (SECOND)\n# TXTPP#\nend\n".to_vec();
         v.push(("tags-after-a-dependency".to_string(), proj(vec![("page.txt.txtpp", page), ("hdr.txt.txtpp", b"header\n".to_vec())], vec!["page.txt.txtpp", "hdr.txt.txtpp"], vec![], "tags-after-dependency"), vec!["build", "needed"]));
     }
     // 12. a command that reads the file's own output path while it is being rebuilt over a longer old output: the build
